@@ -1600,6 +1600,51 @@ static void run_rescale(Result &R, bool thorough, uint64_t &nboxes, uint64_t &np
                              "\"all_in_[1,2)\": true}",
                              anchor.x(), anchor.y(), anchor.z(), sx, sy, sz));
             }
+  // mantissa sweep of the largest box side: the power of two used for the rescaling is chosen from
+  // the extent of the all-encompassing tetrahedron (a fixed multiple of the largest side), so the
+  // position of the side's mantissa relative to that multiple decides whether the power of two fits;
+  // all 64 (thorough 512) equidistant mantissas in [1,2), both neighbours of 2, and the sides at which
+  // 8, 9 and 10 times the side cross a power of two, on every axis as the largest one
+  {
+    std::vector< double > M;
+    const int nm = thorough ? 512 : 64;
+    for (int k = 0; k < nm; ++k)
+      M.push_back(1. + (double)k / nm);
+    M.push_back(std::nextafter(2., 0.));
+    M.push_back(std::nextafter(1., 2.));
+    for (double f : {8., 9., 10., 7., 6., 5., 3.})
+      for (int e = 3; e <= 4; ++e) {
+        const double x = std::ldexp(1., e) / f; // f * x is a power of two
+        if (x >= 1. && x < 2.) {
+          M.push_back(x);
+          M.push_back(std::nextafter(x, 0.));
+          M.push_back(std::nextafter(x, 4.));
+        }
+      }
+    const std::vector< int > E = thorough ? std::vector< int >{-10, -1, 0, 1, 7, 55} : std::vector< int >{-1, 0, 3};
+    const double small[3][2] = {{1., 1.}, {0.5, 0.25}, {1. / 3., 0.7}};
+    const double anchors[3] = {0., -2., 0.5};
+    for (double m : M)
+      for (int e : E)
+        for (int axis = 0; axis < 3; ++axis)
+          for (int shape = 0; shape < 3; ++shape)
+            for (int ia = 0; ia < 3; ++ia) {
+              if (R.out_of_time()) {
+                R.hit_deadline("rescale mantissa sweep");
+                return;
+              }
+              const double big = std::ldexp(m, e);
+              double sd[3];
+              sd[axis] = big;
+              sd[(axis + 1) % 3] = big * small[shape][0];
+              sd[(axis + 2) % 3] = big * small[shape][1];
+              const Vec sides(sd[0], sd[1], sd[2]);
+              const Vec anchor(anchors[ia] * sd[0], anchors[(ia + 1) % 3] * sd[1], anchors[(ia + 2) % 3] * sd[2]);
+              ++nboxes;
+              if (!rescale_case(R, anchor, sides, npoints, false))
+                ++nbad;
+            }
+  }
 }
 
 // ---------------------------------------------------------------------------
